@@ -37,7 +37,8 @@ func (t *XMPPTransport) Connect() (string, error) {
 
 	t.conn, err = net.DialTimeout("tcp", t.Config.Address, time.Duration(t.Config.ConnectTimeout)*time.Second)
 	if err != nil {
-		return "", NewConnError(err, true)
+		// Not being able to reach the server right now is not a permanent condition.
+		return "", NewConnError(err, false)
 	}
 
 	// A new TCP connection is never secure, whatever a previous connection of this
